@@ -284,3 +284,48 @@ def bit_range_invariant(rep):
         else:
             rep.incon("bit-offset", key, "range %s not within [0,7] and no witness" % ([str(ret.lo), str(ret.hi)] if ret is not None else None))
     rep.floor("obligations:bit-offset", 20)
+    bit_index_law(rep, wd, sizes)
+
+
+def bit_index_law(rep, wd, sizes):
+    """the linear bit index 8*byte + offset moves by exactly the requested amount (polynomial identity, both carry branches)"""
+    from .ir.poly import PolyInterp, Unsupported as PU
+    rep.rule("bit-index: for bit_range<R>: after bit_advance(n) the bit index 8*byte+offset has grown by n, after ++/-- by +R/-R; bit_distance_to(b) is the "
+             "difference of the bit indices; bit_aligned_pixel_iterator: it+n advances the index by n*R and (it+n)-it == n")
+    L = ['#include "vf_common.hpp"', 'using namespace vf;', 'extern "C" {']
+    obl = []
+    for r in sizes:
+        t = "bit_range<%d,true>" % r
+        L.append("iptr w_bil_adv_%d(unsigned char* p, int off, std::ptrdiff_t n){ %s r(p, off); r.bit_advance(n); return 8*(iptr)r.current_byte() + r.bit_offset(); }" % (r, t))
+        L.append("iptr w_bir_adv_%d(unsigned char* p, int off, std::ptrdiff_t n){ return 8*(iptr)p + off + n; }" % r)
+        obl.append(("adv_%d" % r, "bit_range<%d>::bit_advance(n)" % r))
+        L.append("iptr w_bil_inc_%d(unsigned char* p, int off, std::ptrdiff_t n){ %s r(p, off); ++r; return 8*(iptr)r.current_byte() + r.bit_offset(); }" % (r, t))
+        L.append("iptr w_bir_inc_%d(unsigned char* p, int off, std::ptrdiff_t n){ return 8*(iptr)p + off + %d; }" % (r, r))
+        obl.append(("inc_%d" % r, "bit_range<%d>::operator++" % r))
+        L.append("iptr w_bil_dec_%d(unsigned char* p, int off, std::ptrdiff_t n){ %s r(p, off); --r; return 8*(iptr)r.current_byte() + r.bit_offset(); }" % (r, t))
+        L.append("iptr w_bir_dec_%d(unsigned char* p, int off, std::ptrdiff_t n){ return 8*(iptr)p + off - %d; }" % (r, r))
+        obl.append(("dec_%d" % r, "bit_range<%d>::operator--" % r))
+        L.append("iptr w_bil_dist_%d(unsigned char* p, int off, std::ptrdiff_t n, unsigned char* q, int off2){ %s a(p, off), b(q, off2); return a.bit_distance_to(b); }" % (r, t))
+        L.append("iptr w_bir_dist_%d(unsigned char* p, int off, std::ptrdiff_t n, unsigned char* q, int off2){ return (8*(iptr)q + off2) - (8*(iptr)p + off); }" % r)
+        obl.append(("dist_%d" % r, "bit_range<%d>::bit_distance_to" % r))
+    L.append("}")
+    src = os.path.join(wd, "c08_bitindex.cpp")
+    open(src, "w").write("\n".join(L) + "\n")
+    bc = C.emit_ir(src, src[:-4] + ".bc")
+    d = C.irdump(bc, src[:-4] + ".json")
+    fns = {f["name"]: f for f in d["functions"]}
+    for tag, desc in obl:
+        rep.count("obligations:bit-index")
+        key = "bit-index:" + desc
+        try:
+            rng = {"a1": (0, 7), "a4": (0, 7)}
+            a = PolyInterp(fns["w_bil_" + tag], facts=lambda at: rng.get(at)).run()
+            b = PolyInterp(fns["w_bir_" + tag]).run()
+        except (PU, KeyError) as e:
+            rep.fail_analysis("%s: IR not supported: %s" % (key, e))
+            continue
+        if a == b:
+            rep.ok("bit-index", key, repr(b)[:120])
+        else:
+            rep.violation("bit-index", key, "include/boost/gil/bit_aligned_pixel_reference.hpp (bit_range)", {"after": repr(a)[:600], "expected": repr(b)[:300], "difference": repr(a - b)[:400]})
+    rep.floor("obligations:bit-index", 4 * len(sizes))
